@@ -43,13 +43,15 @@ vars == <<chain, have, keys, ginfo, present, enabled, note, signed, followed, fo
 NoInfo == [h |-> 0, mhp |-> 0, mhg |-> 0]
 Max2(a, b) == IF a >= b THEN a ELSE b
 MhpAt(h) == IF h = 0 THEN 0 ELSE chain[h].mhp
-TipOf(n) == [h |-> have[n], mhp |-> MhpAt(have[n])]
+\* the header of node n's tip: its maxHeightPrevoted is the chain's value BEFORE the block (what its generator saw)
+TipOf(n) == [h |-> have[n], mhp |-> IF have[n] = 0 THEN 0 ELSE MhpAt(have[n] - 1)]
 
 \* the info of the latest header the validator signed anywhere (NoInfo before the first)
 Latest == IF signed = {} THEN NoInfo
           ELSE CHOOSE s \in signed : \A t \in signed : t.h <= s.h
 
-\* liskbft API HeaderHasPriority for a version-2 tip: the node's tip is strictly better than the reported last block
+\* liskbft API HeaderHasPriority for a version-2 tip: the node's tip HEADER is strictly better than the reported last block
+\* (a node whose tip is the very block the validator generated last is not "synced" yet: one more block is needed)
 \* (the genesis block has version 0: nothing may have been generated above it)
 Synced(tip, i) == IF tip.h = 0 THEN i.h <= 0 /\ i.mhp <= 0
                   ELSE i.mhp < tip.mhp \/ (i.mhp = tip.mhp /\ i.h < tip.h)
